@@ -21,7 +21,7 @@
    They are about every nesting fuel f, every change tree, every fault index and every stop index. *)
 From stdpp Require Import gmap list.
 From Coq Require Import NArith.
-From RopeVerif.C10 Require Import FsModel Change ChangeProofs HistoryProofs.
+From RopeVerif.C10 Require Import FsModel Change ChangeProofs HistoryProofs Static StaticProofs Observer ObserverProofs.
 
 (* If History.do fails (injected fault at any primitive call, stop at any job boundary, or a natural
    refusal), the tree, the undo list and the redo list are exactly as before, and the error reported
@@ -186,3 +186,135 @@ Example C10_do_atomic_order_fix_example :
     irrev k' = false /\ single_failure w_nest_k x.
 Proof. exact do_atomic_order_fix_example. Qed.
 Print Assumptions C10_do_atomic_order_fix_example.
+
+(* ================================ deepening: static side condition ================================ *)
+(* [reversible_cs f m c] (Static.rscan) is computed from the change tree and the tree before the call
+   only: every leaf, in the tree in which the fault-free run would execute it, is exactly reversible
+   (edit of an existing file whose recorded old contents match or are absent, move of an existing
+   resource to a free place in an existing folder, creation of a free path; no RemoveResource) or is
+   refused there.  It implies the run-time side condition for EVERY schedule of faults and stops and
+   every variant. *)
+Theorem C10_static_sound :
+  forall (v : variant) (f : nat) (c : change) (m : fs) (k : sched),
+    reversible_cs f m c = true -> irrev k = false ->
+    irrev (res_k (run v f true k Do c m)) = false.
+Proof. exact reversible_cs_irrev. Qed.
+Print Assumptions C10_static_sound.
+
+(* C10_do_atomic with purely static hypotheses (moves included) *)
+Theorem C10_do_atomic_static :
+  forall (f : nat) (c : change) (s : hist) (k : sched) (s' : hist) (k' : sched) (x : err),
+    wf_fs (h_fs s) -> reversible_cs f (h_fs s) c = true -> irrev k = false ->
+    history_do repaired f c s k = HErr s' k' x ->
+    single_failure k x ->
+    s' = s /\ clean x = true.
+Proof. exact history_do_atomic_static. Qed.
+Print Assumptions C10_do_atomic_static.
+
+Theorem C10_undo_atomic_static :
+  forall (f : nat) (s : hist) (k : sched) (s' : hist) (k' : sched) (x : err) (c0 : change) (rest : list change),
+    wf_fs (h_fs s) -> h_undo s = c0 :: rest ->
+    reversible_undo f (h_fs s) (List.last rest c0) = true -> irrev k = false ->
+    history_undo repaired f s k = HErr s' k' x ->
+    single_failure k x ->
+    s' = s /\ clean x = true.
+Proof. exact history_undo_atomic_static. Qed.
+Print Assumptions C10_undo_atomic_static.
+
+Theorem C10_redo_atomic_static :
+  forall (f : nat) (s : hist) (k : sched) (s' : hist) (k' : sched) (x : err) (c0 : change) (rest : list change),
+    wf_fs (h_fs s) -> h_redo s = c0 :: rest ->
+    reversible_cs f (h_fs s) (List.last rest c0) = true -> irrev k = false ->
+    history_redo repaired f s k = HErr s' k' x ->
+    single_failure k x ->
+    s' = s /\ clean x = true.
+Proof. exact history_redo_atomic_static. Qed.
+Print Assumptions C10_redo_atomic_static.
+
+Example C10_static_example :
+  reversible_cs 6 (h_fs w_nest_s) w_nest_c = true /\ static_ok w_nest_c = false /\
+  exists s' k' x, history_do repaired 6 w_nest_c w_nest_s w_nest_k = HErr s' k' x /\ single_failure w_nest_k x.
+Proof. exact static_example. Qed.
+Print Assumptions C10_static_example.
+
+Example C10_static_refusal_example :
+  reversible_cs 4 (h_fs w_order_s) w_order_c = true /\
+  exists k' x, history_do repaired 4 w_order_c w_order_s quiet = HErr w_order_s k' x.
+Proof. exact static_refusal_example. Qed.
+Print Assumptions C10_static_refusal_example.
+
+(* ================= deepening: observers and partial writes as failure points ================= *)
+(* Observer.v extends the schedule by [obs] (the n-th observer notification after a primitive
+   raises) and [prim_atomic] (false: the injected fault of a write hits after the file was
+   truncated).  With both switched off the extended model IS Change.history_do. *)
+Theorem C10_observer_model_conservative :
+  forall (v : variant) (f : nat) (c : change) (s : hist) (k : osched),
+    obs k = None /\ prim_atomic k = true ->
+    ohistory_do v f c s k = embh k (history_do v f c s (ok k)).
+Proof. exact ohistory_do_plain. Qed.
+Print Assumptions C10_observer_model_conservative.
+
+(* all-or-nothing for runs in which no observer raises and primitives fail atomically *)
+Theorem C10_do_atomic_observer_free :
+  forall (f : nat) (c : change) (s : hist) (k : osched) (s' : hist) (k' : osched) (x : oerr),
+    obs k = None /\ prim_atomic k = true -> wf_fs (h_fs s) ->
+    ohistory_do repaired f c s k = OHErr s' k' x ->
+    irrev (ok k') = false -> (flt (ok k) = None \/ ois_fault x = true) ->
+    s' = s /\ oclean x = true.
+Proof. exact ohistory_do_atomic. Qed.
+Print Assumptions C10_do_atomic_observer_free.
+
+Theorem C10_undo_atomic_observer_free :
+  forall (f : nat) (s : hist) (k : osched) (s' : hist) (k' : osched) (x : oerr),
+    obs k = None /\ prim_atomic k = true -> wf_fs (h_fs s) ->
+    ohistory_undo repaired f s k = OHErr s' k' x ->
+    irrev (ok k') = false -> (flt (ok k) = None \/ ois_fault x = true) ->
+    s' = s /\ oclean x = true.
+Proof. exact ohistory_undo_atomic. Qed.
+Print Assumptions C10_undo_atomic_observer_free.
+
+(* what survives every failure, observers and partial writes included, in every variant: the undo
+   list, the redo list and the limit are those before the call (only the tree can be damaged) *)
+Theorem C10_failure_keeps_history_lists :
+  forall (v : variant) (f : nat) (c : change) (s : hist) (k : osched) (s' : hist) (k' : osched) (x : oerr),
+    (ohistory_do v f c s k = OHErr s' k' x \/ ohistory_undo v f s k = OHErr s' k' x
+     \/ ohistory_redo v f s k = OHErr s' k' x) ->
+    h_undo s' = h_undo s /\ h_redo s' = h_redo s /\ h_limit s' = h_limit s.
+Proof. exact ohistory_lists_unchanged. Qed.
+Print Assumptions C10_failure_keeps_history_lists.
+
+(* open finding C10-observer-read-fault: an observer that raises after the first write; even the
+   repaired variant keeps the write (the sub-change is not in [done]) *)
+Theorem C10_observer_failure_refuted :
+  exists f c s k s' k' x,
+    wf_fs (h_fs s) /\ prim_atomic k = true /\ flt (ok k) = None /\
+    ohistory_do repaired f c s k = OHErr s' k' x /\ x = OObs /\
+    irrev (ok k') = false /\ h_fs s' <> h_fs s.
+Proof. exact observer_failure_refuted. Qed.
+Print Assumptions C10_observer_failure_refuted.
+
+(* open finding C10-partial-write: without the assumption [prim_atomic] a single injected fault at
+   the write of [edit a] leaves a truncated *)
+Theorem C10_partial_write_refuted :
+  exists f c s k s' k' x,
+    wf_fs (h_fs s) /\ obs k = None /\ prim_atomic k = false /\
+    ohistory_do repaired f c s k = OHErr s' k' x /\ (flt (ok k) = None \/ ois_fault x = true) /\
+    irrev (ok k') = false /\ h_fs s' <> h_fs s.
+Proof. exact partial_write_refuted. Qed.
+Print Assumptions C10_partial_write_refuted.
+
+Example C10_observer_free_example :
+  exists s' k' x,
+    (obs (OS w_nest_k None true) = None /\ prim_atomic (OS w_nest_k None true) = true) /\ wf_fs (h_fs w_nest_s) /\
+    ohistory_do repaired 6 w_nest_c w_nest_s (OS w_nest_k None true) = OHErr s' k' x /\
+    irrev (ok k') = false /\ (flt (ok (OS w_nest_k None true)) = None \/ ois_fault x = true).
+Proof. exact observer_free_example. Qed.
+Print Assumptions C10_observer_free_example.
+
+(* the observer failure at the SECOND notification: the first edit is rolled back, the second stays *)
+Example C10_observer_failure_second_example :
+  exists s' k',
+    ohistory_do repaired 4 w_obs_c w_obs_s (OS quiet (Some 1) true) = OHErr s' k' OObs /\
+    h_fs s' !! ppy = Some (File cX1) /\ h_fs s' !! pa = Some (File cC).
+Proof. exact observer_failure_second. Qed.
+Print Assumptions C10_observer_failure_second_example.
